@@ -1,5 +1,6 @@
 import Cirbo.Proofs.Traverse
 import Cirbo.Proofs.Dfs
+import Cirbo.Proofs.TrTerm
 /-!
 # C20 — Traversals visit exactly the reachable gates in a valid order
 
@@ -7,7 +8,9 @@ import Cirbo.Proofs.Dfs
 -- OBLIGATION: c20_top_sort_outputs_first
 -- OBLIGATION: c20_traverse_reach_exact
 -- OBLIGATION: c20_dfs_exits_exact
--- PARTIAL: DFS hook order (enter before exit, post-order exits; balance — every entered gate is exited exactly once — is proved) and exactness of the cycle check are modelled (Model/Traverse.lean, hasCycleCheck) and compared with the code event by event on every run; their theorems are not proved yet. Termination of the traversal loop within the model fuel is by correspondence.
+-- OBLIGATION: c20_traversal_terminates
+-- OBLIGATION: c20_traverse_never_raises
+-- PARTIAL: DFS hook order (enter before exit, post-order exits; balance — every entered gate is exited exactly once — is proved) and exactness of the cycle check are modelled (Model/Traverse.lean, hasCycleCheck) and compared with the code event by event on every run; their theorems are not proved yet.
 -/
 namespace Cirbo
 
@@ -75,6 +78,24 @@ theorem c20_dfs_exits_exact {c : Circuit} (inverse : Bool) (start : Option (List
     (exits log).Nodup ∧ (∀ l, l ∈ exits log ↔ Reach next q0 l) ∧ (∀ l, l ∈ exits log ↔ l ∈ yields log) :=
   dfs_exits_exact inverse start tsu ab hne h
 
+/-- The traversal loop terminates: on any circuit with distinct labels (cyclic or not, dangling
+operands or not), any start list, direction and hook set, the loop's step budget — which the proof
+shows is a strict upper bound on `queue length + Σ_{unvisited}(1 + successors)` — is never exhausted. -/
+theorem c20_traversal_terminates (c : Circuit) (hnd : c.labels.Nodup) (bfs inverse : Bool)
+    (start : Option (List Label)) (tsu ab : Bool) :
+    traverse c bfs inverse start tsu ab ≠ .error "fuel" :=
+  traverse_terminates c hnd bfs inverse start tsu ab
+
+/-- On a well-formed circuit DFS and BFS return (no exception, no divergence) from the default start
+or any list of existing gates, in either direction, with either choice for `topsort_unvisited`; so
+the "whenever the call returns" of the two exactness theorems is always met. -/
+theorem c20_traverse_never_raises {c : Circuit} (h : WFU c) (bfs inverse : Bool)
+    (start : Option (List Label)) (hstart : ∀ q, start = some q → ∀ x ∈ q, x ∈ c.labels) (tsu : Bool) :
+    ∃ log, traverse c bfs inverse start tsu false = .ok log :=
+  traverse_ok h bfs inverse start hstart tsu
+
+#print axioms c20_traversal_terminates
+#print axioms c20_traverse_never_raises
 #print axioms c20_top_sort_inputs_first
 #print axioms c20_top_sort_outputs_first
 #print axioms c20_traverse_reach_exact
